@@ -418,9 +418,6 @@ class SBool:
     def __rsub__(self, o):
         return o - self._num()
 
-    def __index__(self):
-        return int(bool(self))
-
     def logical_not(self):
         return ~self
 
@@ -1066,6 +1063,7 @@ def obj(a):
             v = a0[i]
             out[i] = v.item() if hasattr(v, "item") else v
         return out
+    from . import snp
     shape = _shape_of(a)
     out = np.empty(shape, dtype=object)
     for i in np.ndindex(shape):
@@ -1073,7 +1071,7 @@ def obj(a):
         for j in i:
             v = v[j]
         out[i] = v
-    return out
+    return out.view(snp.SymArr)
 
 
 def _shape_of(a):
@@ -1087,7 +1085,8 @@ def _shape_of(a):
 
 
 def sym_array(c, name, shape, kind="real", lo=None, hi=None):
-    out = np.empty(shape, dtype=object)
+    from . import snp
+    out = np.empty(shape, dtype=object).view(snp.SymArr)
     for i in np.ndindex(*shape) if shape else [()]:
         nm = name + "_" + "_".join(map(str, i))
         if kind == "real":
